@@ -148,6 +148,23 @@ def corr(ctx):
                                     ops.append(Op("pkron 0", "1", nontrivial=False,
                                                   info={"site": "fec.decoders:SuccessiveCancellationDecoder.textbook", "config": dict(cfg, regime=regime, llr=row, got=bstr(o), want=bstr(want))}, prop_ok=(bstr(o) == bstr(want))))
                             ctx.count("sc_arbitrary_%s" % regime, nl)
+                            # magnitudes confined to a narrow band, one row per call: approximations that switch on the size of ALL
+                            # inputs of a node / batch (saturation shortcuts) and nearly equal magnitudes (largest correction term)
+                            if regime == "sum_product" and N <= 16:
+                                for band in ((0.3, 0.5), (4.0, 5.0), (18.0, 21.0), (19.5, 20.5), (30.0, 33.0)):
+                                    for _ in range(4 if ctx.thorough else 2):
+                                        row = [rng.choice([-1, 1]) * round(rng.uniform(*band) * 64) / 64 for _ in range(N)]
+                                        o = sc(torch.tensor([row], dtype=torch.float32)).tolist()[0]
+                                        MARGIN[0] = float("inf")
+                                        u, _ = textbook_sc(row, info, fzv, inter, f_sp)
+                                        if MARGIN[0] < 1e-3:
+                                            ctx.skipped_by_margin += 1
+                                            continue
+                                        want = [b for b, i in zip(u, info) if i]
+                                        ops.append(Op("pkron 0", "1", nontrivial=False,
+                                                      info={"site": "fec.decoders:SuccessiveCancellationDecoder.textbook", "config": dict(cfg, regime=regime, band=list(band), llr=row, got=bstr(o), want=bstr(want))},
+                                                      prop_ok=(bstr(o) == bstr(want))))
+                                        ctx.count("sc_band_rows")
                     if not inter and N <= 64:
                         for regime in ("sum_product", "min_sum"):
                             bp = quiet(BeliefPropagationPolarDecoder, enc, regime=regime, bp_iters=10)
@@ -195,6 +212,19 @@ def corr(ctx):
         msg = [rng.getrandbits(1) for _ in range(k)]
         cw = enc(torch.tensor([msg], dtype=torch.float32))[0].tolist()
         ops.append(Op("penc %d 0 1 %s %s" % (N.bit_length() - 1, bstr(mask), bstr(msg)), bstr(cw), nontrivial=True, info={"site": "fec.encoders:polar.user_mask", "config": {"N": N, "mask": bstr(mask)}}))
+    # ---- the check-node rule itself, band by band (each call holds only values of one band), against the float64 definition
+    from kaira.models.fec.encoders.polar_code import PolarCodeEncoder as _PE
+    scn = SuccessiveCancellationDecoder(_PE(2, 4), regime="sum_product")
+    worst = {}
+    for band in ((0.01, 0.1), (0.3, 1.0), (1.0, 5.0), (5.0, 12.0), (12.0, 18.0), (18.0, 22.0), (19.9, 20.1), (22.0, 40.0), (40.0, 90.0)):
+        pa = [rng.choice([-1, 1]) * rng.uniform(*band) for _ in range(64)]
+        pb = [rng.choice([-1, 1]) * (abs(a) + rng.uniform(-0.02, 0.02) * abs(a) if j % 2 else rng.uniform(*band)) for j, a in enumerate(pa)]
+        ta, tb = torch.tensor([pa], dtype=torch.float32), torch.tensor([pb], dtype=torch.float32)
+        got = scn.checknode((ta, tb)).flatten().tolist()
+        dev = max(abs(g - f_sp(float(a), float(b))) / (1e-3 + abs(f_sp(float(a), float(b)))) for g, a, b in zip(got, ta.flatten().tolist(), tb.flatten().tolist()))
+        worst["%g-%g" % band] = dev
+        ops.append(Op("pkron 0", "1", nontrivial=False, info={"site": "fec.decoders:SuccessiveCancellationDecoder.checknode", "config": {"band": list(band), "max_rel_dev": dev}}, prop_ok=dev < 2e-3))
+    ctx.extra["checknode_max_rel_dev"] = worst
     return ops
 
 
